@@ -12,7 +12,8 @@ Record eds_snapshot := MkEdsSnap {
   es_fail_status : bool;               (* the status write is rejected *)
   es_fail_update : bool;               (* the spec/annotation write is rejected *)
   es_fail_rs_delete : list name;       (* replica sets whose deletion is rejected *)
-  es_fail_rs_create : bool             (* the replica-set creation is rejected *)
+  es_fail_rs_create : bool;            (* the replica-set creation is rejected *)
+  es_fail_list_rs : bool               (* the List of the replica sets fails *)
 }.
 
 (** The new replica set sent to the API (GenerateName = <eds name>-). *)
@@ -177,6 +178,7 @@ Definition eds_sync : outcome eds_plan :=
         | Panic c => Panic c
         | Error c => Error c
         | Ok _ =>
+            if es_fail_list_rs sn then Error 60%N else
             let rss := rs_of_eds e (es_rss sn) in
             let sum f := fold_left (fun acc r => acc + f (r_status r)) rss 0 in
             let active := last_such (fun r => N.eqb (r_name r) (es_active (e_status e))) rss in
